@@ -12,3 +12,12 @@ import (
 func VerifC15NewGoogleAdminService(svc *admin.Service, cb *circuit.Breaker) *GoogleAdminService {
 	return &GoogleAdminService{adminService: svc, cb: cb}
 }
+
+// VerifC15WireGoogleProvider gives a provider built by the real NewGoogleProvider its admin service exactly as
+// NewGoogleProvider does when a credentials file is configured (google.go:82-90: same breaker object), but
+// around a given directory client instead of one built from service-account credentials. It returns the
+// provider's breaker so that the driver can attach a mock clock and recorders to it.
+func VerifC15WireGoogleProvider(p *GoogleProvider, svc *admin.Service) *circuit.Breaker {
+	p.AdminService = &GoogleAdminService{adminService: svc, cb: p.cb}
+	return p.cb
+}
